@@ -18,11 +18,45 @@ headed_text = st.tuples(st.sampled_from(['//', '// (c) me', '/// doc', '//!', '/
                         st.sampled_from(['All rights reserved.', 'static_assert(false, "leaked");', '',
                                          'int leaked;', '#error leaked']),
                         hostile_line_text).map(lambda t: t[0] + t[1] + t[2] + (('\n' + t[3]) if t[3] else ''))
-any_text = st.one_of(hostile_line_text, hostile_line_text, headed_text)
+# every line starts with the same white space (a text written as an indented block)
+indented_text = st.tuples(st.sampled_from(['  ', '    ', '\t', ' \t ']),
+                          st.lists(st.sampled_from(['tool: x', 'revision 1', 'built by hand', '- item', 'a  b']),
+                                   min_size=1, max_size=3)).map(lambda t: '\n'.join(t[0] + l for l in t[1]))
+any_text = st.one_of(hostile_line_text, hostile_line_text, headed_text, indented_text)
 
 
 def strip_comment_lines(text):
     return [l for l in text.split('\n') if not l.startswith('//')]
+
+
+def carried(contents, text):
+    """Does the file carry `text` as consecutive comment lines: '//' + one common prefix + the line
+    (blank lines as a bare comment line), leading white space of the lines intact?"""
+    want = c19.c17.split_ref(text)
+    while want and want[-1].strip(' \t') == '':
+        want.pop()
+    while want and want[0].strip(' \t') == '':
+        want.pop(0)
+    if not want:
+        return True
+    lines = contents.split('\n')
+    first = want[0].rstrip(' \t')
+    for i, line in enumerate(lines):
+        if not (line.startswith('//') and line.rstrip(' \t').endswith(first)) or i + len(want) > len(lines):
+            continue
+        prefix = line.rstrip(' \t')[:len(line.rstrip(' \t')) - len(first)]
+        ok = True
+        for k, w in enumerate(want):
+            got = lines[i + k].rstrip(' \t')
+            if w.strip(' \t') == '':
+                ok = got.startswith('//') and got[2:].strip(' \t') == ''
+            else:
+                ok = got == prefix + w.rstrip(' \t')
+            if not ok:
+                break
+        if ok:
+            return True
+    return False
 
 
 def check_build_pair(case):
@@ -49,6 +83,16 @@ def check_build_pair(case):
             diff = next((i for i, (x, y) in enumerate(zip(la, lb)) if x != y), min(len(la), len(lb)))
             raise Fail(f'{fn}: a non-comment line changes with copyright / creator_info: '
                        f'{la[diff:diff + 1]!r} vs {lb[diff:diff + 1]!r}', 'code-changed')
+    for (cr, ci), res in zip(case['texts'], variants):
+        shell = [c for fn, c, _ in res if not (fn.startswith('Dzn_') or '_Dzn_' in fn)]
+        for what, text in (('copyright', cr), ('creator_info', ci)):
+            if text is None or any(ch in text for ch in '\x00'):
+                continue
+            # (the creator information is printed in the header only: one carrying file is enough)
+            if not any(carried(c, text) for c in shell):
+                raise Fail(f'none of the generated shell files carries the {what} text {text!r} as comment '
+                           f'lines with the original text (leading white space included)',
+                           f'text-not-carried:{what}')
     for res in variants:
         for fn, contents, _ in res:
             lines = contents.split('\n')
